@@ -251,6 +251,34 @@ def close_worlds():
     _WORLDS.clear()
 
 
+def fails_after_failure(w, ext, enc, with_chart):
+    """
+    History clause: a save that failed must not poison the next one.  Right after a failed mutate a fresh file is
+    mutated without any fault, with a backup and an output name; the backup must parse to that file's simfile at
+    block entry and the output to the simfile at block exit.
+    """
+    data = MU.file_bytes(ext, content_for(enc), with_chart, unique=True)
+    r = run(w, ext, data, True, True, ["title_ascii"], record=True)
+    fails = []
+    if r["result"] != ("ok",):
+        fails.append({"clause": "a fault-free mutate right after a failed one raised", "expected": "saved", "observed": repr(r["result"][1])})
+        return fails
+    try:
+        bak = MU.canon_obs(MU.parse_as(ext, r["after"]["bak" + ext], enc, True))
+        out = MU.canon_obs(MU.parse_as(ext, r["after"]["out" + ext], enc, True))
+        if bak != r["entry"]:
+            fails.append({"clause": "after a failed save, the next mutate's backup does not parse to its own original simfile", "expected": r["entry"], "observed": bak})
+        want_exit = copy.deepcopy(r["entry"])
+        want_exit["items"] = [(k, "New Title" if k == "TITLE" else v) for k, v in want_exit["items"]]
+        if out != want_exit:
+            fails.append({"clause": "after a failed save, the next mutate's output does not parse to its own edited simfile", "expected": want_exit, "observed": out})
+    except core.WatchdogTimeout:
+        raise
+    except BaseException as e:
+        fails.append({"clause": "after a failed save, the next mutate's files do not decode / parse", "expected": "simfiles", "observed": f"{type(e).__name__}: {e}"})
+    return fails
+
+
 def do_case(case):
     w = world(case["fs"])
     ext, enc = case["ext"], case["enc"]
@@ -262,10 +290,10 @@ def do_case(case):
         return fails_body(r, case["exc"]), r
     if kind == "serialization":
         r = run(w, ext, data, case["output"], case["backup"], script, final_op=serialization_faults(ext)[case["fault"]])
-        return fails_save_failure(r, "cannot be serialized"), r
+        return fails_save_failure(r, "cannot be serialized") + fails_after_failure(w, ext, enc, case["with_chart"]), r
     if kind == "encoding":
         r = run(w, ext, data, case["output"], case["backup"], script, final_op=encoding_faults(enc)[case["fault"]])
-        return fails_save_failure(r, "cannot be encoded in the detected encoding"), r
+        return fails_save_failure(r, "cannot be encoded in the detected encoding") + fails_after_failure(w, ext, enc, case["with_chart"]), r
     if kind == "io":
         r = run(w, ext, data, case["output"], case["backup"], script, fail_at=case["k"])
         return fails_io(r, case["k"]), r
